@@ -53,9 +53,7 @@ func (p *EvenPort) GetFrom(m *stun.Message) error {
 	if err = stun.CheckSize(stun.AttrEvenPort, len(v), evenPortSize); err != nil {
 		return err
 	}
-	if v[0]&firstBitSet > 0 {
-		p.ReservePort = true
-	}
+	p.ReservePort = v[0]&firstBitSet > 0
 
 	return nil
 }
